@@ -110,6 +110,12 @@ def tree_ref(case, e, x, off, N):
             v1, F1 = tree_ref(case, s, x, off, N)
             v, F = v + v1, F + F1
         return v, F
+    if k == "chain" and e["e"]["k"] in ("sum", "scale", "chain", "lin", "ham"):
+        y, d = x.copy(), np.ones(N)
+        for kk, (o, m) in off.items():
+            y[o:o + m], d[o:o + m] = f_val_der(e["f"].get(kk, {"f": "id"}), x[o:o + m])
+        v, F = tree_ref(case, e["e"], y, off, N)
+        return v, np.diag(d) @ F @ np.diag(d)
     leaf = e["e"] if k in ("chain", "lin") else e
     keys = G.leaf_keys(leaf)
     idx = []
